@@ -70,6 +70,10 @@ Check(e) ==
   IF ~HasDir(e) THEN ""
   ELSE IF \E f \in Files : Cardinality(hU[f]) > 1 THEN "ObsMutex:two-holders"
   ELSE IF \E f \in Files : hU[f] # {} /\ rd[f] # {} THEN "ObsMutex:read-while-held"
+  \* a table taken for update is held until the transaction ends: a handler of it that is released while the process is
+  \* still executing a statement that takes tables (not COMMIT, ROLLBACK or its end) and has not failed gives the table away
+  ELSE IF HasOp(e) /\ e.pt \in {"close.done", "commit.done"} /\ e.op = "update" /\ e.out = "run" /\ e.f \in Files /\ e.p \in holdU[e.f]
+       THEN "ObsHeldUntilEnd:released-within-statement"
   ELSE IF \E f \in must : ~e.dir[f].exists THEN "ObsDurable:table-missing"
   ELSE IF \E f \in must : e.dir[f].ver < 0 THEN "ObsDurable:table-incomplete"
   ELSE IF \E f \in must : e.dir[f].ver # ver[f] /\ ~(Installs(e, f) /\ e.dir[f].ver = ver[f] + 1)
